@@ -20,6 +20,7 @@ pub mod c08alloc;
 pub mod c08gen;
 pub mod c09;
 pub mod c10;
+pub mod c10_pool;
 pub mod c11;
 pub mod c12;
 pub mod c13;
